@@ -531,6 +531,10 @@ pub fn vh_fetch(a: &Args) {
     let mut out = Shards::create(&a.out, "fetch", a.shards);
     let all: Vec<u32> = (0..=255).collect();
     let grid: Vec<u32> = vec![0, 1, 2, 11, 12, 13, 31, 63, 64, 65, 100, 127, 128, 200, 254, 255];
+    let mut grid64: Vec<u32> = (0..=255).step_by(4).collect();
+    grid64.extend([1, 11, 13, 63, 65, 127, 254, 255]);
+    grid64.sort();
+    grid64.dedup();
     let bufsizes = [0usize, 1, 12, 64, 255, 256];
     let mut cases: u64 = 0;
     // replay of one case: only=chip,path,hdr,off,bufsz,status,replen,cfglen
@@ -551,8 +555,15 @@ pub fn vh_fetch(a: &Args) {
             if !sel(a, "paths", path) {
                 continue;
             }
-            let exhaustive = a.thorough && path == "direct";
-            let (lens, offs) = if exhaustive { (&all, &all) } else { (&grid, &grid) };
+            // thorough: RadioKind::get_rx_payload and LoRa::complete_rx are enumerated completely (all 256 lengths x
+            // 256 offsets), LorawanRadio::rx_single on a 64x64 grid; quick: the 16x16 boundary grid on every path
+            let (lens, offs) = if a.thorough && path != "lorawan" {
+                (&all, &all)
+            } else if a.thorough {
+                (&grid64, &grid64)
+            } else {
+                (&grid, &grid)
+            };
             // the status byte only exists on the SX126x command interface
             let statuses: Vec<u8> = if chip == "sx1262" {
                 if path == "direct" {
@@ -1221,6 +1232,52 @@ fn lens(thorough: bool) -> Vec<u8> {
     if thorough { (0..=255).collect() } else { vec![0, 1, 12, 13, 51, 64, 127, 128, 222, 242, 254, 255] }
 }
 
+unsafe extern "C" {
+    // SWL2001 sx126x.h: present in the static library of smtc-modem-cores-sys, not in its generated bindings
+    fn sx126x_set_reg_mode(context: *const core::ffi::c_void, mode: u32) -> u32;
+    fn sx126x_clear_device_errors(context: *const core::ffi::c_void) -> u32;
+    fn sx126x_set_dio3_as_tcxo_ctrl(context: *const core::ffi::c_void, tcxo_voltage: u32, timeout: u32) -> u32;
+    fn sx126x_cal(context: *const core::ffi::c_void, param: u8) -> u32;
+}
+
+fn tcxo_voltage(code: i64) -> Option<sx126x::TcxoCtrlVoltage> {
+    use sx126x::TcxoCtrlVoltage::*;
+    match code {
+        0 => Some(Ctrl1V6),
+        1 => Some(Ctrl1V7),
+        2 => Some(Ctrl1V8),
+        3 => Some(Ctrl2V2),
+        4 => Some(Ctrl2V4),
+        5 => Some(Ctrl2V7),
+        6 => Some(Ctrl3V0),
+        7 => Some(Ctrl3V3),
+        _ => None,
+    }
+}
+
+/// init_lora of one chip variant with the regulator / TCXO options of the board configuration
+fn init126(chip: &str, spi: &Spi<Env126>, use_dcdc: bool, tcxo: i64, sw: u16) -> Result<Result<(), RadioError>, String> {
+    let tcxo_ctrl = tcxo_voltage(tcxo);
+    match chip {
+        "sx1261" => {
+            let mut rk = sx126x::Sx126x::new(spi.clone(), Iv::new(), sx126x::Config { chip: sx126x::Sx1261, tcxo_ctrl, use_dcdc, rx_boost: false });
+            catch(|| block_on(RadioKind::init_lora(&mut rk, sw)))
+        }
+        "sx1262" => {
+            let mut rk = sx126x::Sx126x::new(spi.clone(), Iv::new(), sx126x::Config { chip: sx126x::Sx1262, tcxo_ctrl, use_dcdc, rx_boost: false });
+            catch(|| block_on(RadioKind::init_lora(&mut rk, sw)))
+        }
+        "stm32wl-hp" => {
+            let mut rk = sx126x::Sx126x::new(spi.clone(), Iv::new(), sx126x::Config { chip: sx126x::Stm32wl { use_high_power_pa: true }, tcxo_ctrl, use_dcdc, rx_boost: false });
+            catch(|| block_on(RadioKind::init_lora(&mut rk, sw)))
+        }
+        _ => {
+            let mut rk = sx126x::Sx126x::new(spi.clone(), Iv::new(), sx126x::Config { chip: sx126x::Stm32wl { use_high_power_pa: false }, tcxo_ctrl, use_dcdc, rx_boost: false });
+            catch(|| block_on(RadioKind::init_lora(&mut rk, sw)))
+        }
+    }
+}
+
 fn wire_126(a: &Args, col: &mut Collector, rng: &mut StdRng) {
     let th = a.thorough;
     let md = &mut MockDelay;
@@ -1629,6 +1686,17 @@ fn wire_126(a: &Args, col: &mut Collector, rng: &mut StdRng) {
             }
         }
         if only("init") {
+            // regulator / TCXO branches of the start-up sequence: a = [sync word, use_dcdc, tcxo voltage code or -1]
+            for dcdc in [false, true] {
+                for tcxo in -1i64..=7 {
+                    if !dcdc && tcxo < 0 {
+                        continue; // the plain configuration is enumerated below with the retention-list variants
+                    }
+                    let spi = Spi::new(Env126::new());
+                    let r = init126(chip, &spi, dcdc, tcxo, 0x3444);
+                    col.add("lora-phy", chip, "init", wcase(&[0x3444, dcdc as i64, tcxo], &[], &[], res_str(&r), &spi.take_log()));
+                }
+            }
             for sw in [0x3444u16, 0x1424, 0xAB12] {
                 for k in 0..4 {
                     // retention list contents: empty, already holding RxGain, holding two other registers, full
@@ -1641,7 +1709,7 @@ fn wire_126(a: &Args, col: &mut Collector, rng: &mut StdRng) {
                     let p: Vec<(u16, u8)> = list.iter().enumerate().map(|(i, v)| (0x029F + i as u16, *v)).collect();
                     let spi = Spi::new(env126_with(&p));
                     let r = on126!(chip, spi, false, |rk| catch(|| block_on(RadioKind::init_lora(&mut rk, sw))));
-                    col.add("lora-phy", chip, "init", wcase(&[sw as i64], &p, &[], res_str(&r), &spi.take_log()));
+                    col.add("lora-phy", chip, "init", wcase(&[sw as i64, 0, -1], &p, &[], res_str(&r), &spi.take_log()));
                 }
             }
         }
@@ -1682,6 +1750,29 @@ fn wire_126(a: &Args, col: &mut Collector, rng: &mut StdRng) {
             let mut c = r126::Context::new(Spi::new(Env126::new()));
             let s = c.set_pkt_type(t);
             col.add("reference", chip, "pkt_type", wcase(&[code], &[], &[], st126(s), &c.inner.take_log()));
+        }
+        // functions of the reference's C API that the safe wrapper does not expose (they are in the linked library)
+        for m in [0u32, 1] {
+            let mut c = r126::Context::new(Spi::new(Env126::new()));
+            let s = unsafe { sx126x_set_reg_mode(&mut c as *mut _ as *const core::ffi::c_void, m) };
+            col.add("reference", chip, "reg_mode", wcase(&[m as i64], &[], &[], if s == 0 { "ok" } else { "err" }, &c.inner.take_log()));
+        }
+        {
+            let mut c = r126::Context::new(Spi::new(Env126::new()));
+            let s = unsafe { sx126x_clear_device_errors(&mut c as *mut _ as *const core::ffi::c_void) };
+            col.add("reference", chip, "clear_device_errors", wcase(&[], &[], &[], if s == 0 { "ok" } else { "err" }, &c.inner.take_log()));
+        }
+        for v in 0..8u32 {
+            for t in [0u32, 1, 640, 0x123456, 0xFFFFFF] {
+                let mut c = r126::Context::new(Spi::new(Env126::new()));
+                let s = unsafe { sx126x_set_dio3_as_tcxo_ctrl(&mut c as *mut _ as *const core::ffi::c_void, v, t) };
+                col.add("reference", chip, "tcxo_ctrl", wcase(&[v as i64, t as i64], &[], &[], if s == 0 { "ok" } else { "err" }, &c.inner.take_log()));
+            }
+        }
+        for m in [0u8, 0x7F, 0x40, 0x01, 0x2A] {
+            let mut c = r126::Context::new(Spi::new(Env126::new()));
+            let s = unsafe { sx126x_cal(&mut c as *mut _ as *const core::ffi::c_void, m) };
+            col.add("reference", chip, "calibrate", wcase(&[m as i64], &[], &[], if s == 0 { "ok" } else { "err" }, &c.inner.take_log()));
         }
         for addr in [0x08ACu16, 0x0889, 0x0736] {
             for k in 0..4 {
